@@ -1734,7 +1734,7 @@ class UTPM(Ring, RawAlgorithmsMixIn):
             # try to infer the dtype from x
             dtype= x.dtype
 
-            if dtype==int:
+            if numpy.issubdtype(dtype, numpy.integer) or dtype==bool:
                 dtype=float
 
 
@@ -1788,7 +1788,7 @@ class UTPM(Ring, RawAlgorithmsMixIn):
             # try to infer the dtype from x
             dtype= x.dtype
 
-            if dtype==int:
+            if numpy.issubdtype(dtype, numpy.integer) or dtype==bool:
                 dtype=float
 
 
@@ -1868,7 +1868,7 @@ class UTPM(Ring, RawAlgorithmsMixIn):
         # an integer seed point (e.g. a list of ints) is propagated in floating point,
         # as in init_jacobian
         dtype = x.dtype
-        if dtype==int:
+        if numpy.issubdtype(dtype, numpy.integer) or dtype==bool:
             dtype=float
 
         # generate directions
@@ -1937,7 +1937,7 @@ class UTPM(Ring, RawAlgorithmsMixIn):
             # try to infer the dtype from x
             dtype= x.dtype
 
-            if dtype==int:
+            if numpy.issubdtype(dtype, numpy.integer) or dtype==bool:
                 dtype=float
 
         N = numpy.size(x)
